@@ -45,7 +45,10 @@ LEVEL_TEXT = ("Theorems over all trees (modules, classes, functions, attributes,
               "loads = json.loads as a recursive-descent reader; loads (dumps j) = j for every JSON term (C08_loads_dumps), hence Module.from_json "
               "(as_json t) at the level of texts in both modes (C08_text_decode_min/_full, C08_text_roundtrip_min/_full); the command line's format "
               "(indent=2, sort_keys, newline) reads back as the key-sorted document (C08_loads_dumps_cli); json.loads with the object hook called "
-              "while reading equals the decoding of the printed document, errors included (C08_loads_hook_dumps, C08_hook_decode); the expression "
+              "while reading equals the decoding of the printed document, errors included (C08_loads_hook_dumps, C08_hook_decode); the two documented entry points, Cls.from_json and json.loads(object_hook=json_decoder), "
+              "build the same tree on every dump, parent links included, and the dictionary of packages written by `griffe dump` loads through the "
+              "bare hook to the reloaded packages (C08_entry_points_agree, C08_entry_points_on_dump, C08_packages_doc_loads; the body of from_json "
+              "is shape-checked by the translator, the two real entry points are compared on every generated tree and CLI output); the expression "
               "gap is characterised without the loader: an expression comes back unchanged iff its links are canonical (C08_links_exact, "
               "C08_gap_expr_exact, C08_names_resolve_canonical). The model's string escapes, JSON white "
               "space, str.isspace on Latin-1 and the full-only keys are proved equal to tables regenerated from CPython / models.py on every run "
@@ -73,7 +76,7 @@ LEVEL_NOTE = ("Trusted: Coq kernel, extraction, translator harness/translate/c08
               "and ill-typed expression fields are outside the model (EUnmodelled).")
 MODEL = ("Model.C08_run", "run_C08")
 MODEL_TARGETS = ["Model/C08_run.vo"]
-COQ_TARGETS = ["Proofs/C08_json.vo", "Proofs/C08_full.vo", "Proofs/C08_text.vo", "Proofs/C08_text_tables.vo", "Proofs/C08_links.vo", "Proofs/C08_hook.vo"]
+COQ_TARGETS = ["Proofs/C08_json.vo", "Proofs/C08_full.vo", "Proofs/C08_text.vo", "Proofs/C08_text_tables.vo", "Proofs/C08_links.vo", "Proofs/C08_hook.vo", "Proofs/C08_entry.vo"]
 RULE = ("seeded random packages (imports incl. wildcard and TYPE_CHECKING, re-export chains, imports through a module alias, a cyclic re-export, "
         "an unresolvable import and a wildcard import from a distribution that is not on the search paths, __all__, attributes with "
         "annotations/values/docstrings, functions with every parameter kind, annotations, defaults, decorators, overloads, properties, classes "
@@ -725,6 +728,22 @@ def _check_tree_mode(ctx, obj, case, full, mode, cwd, ta, mres, flags, g_doc, lo
         tb = abs_tree(obj2)
     except Unabstractable:
         pass
+    check_entry_points(ctx, case, mode, j, obj2, tb, load)
+    if not full and mres is not None and ta is not None and ta[0] == "obj":
+        # (C) the model's two entry points on the real text: Cls.from_json and the wrong class
+        kind = ta[7][0]
+        other = "class" if kind != "class" else "module"
+        mo = ctx.model([["from-json", kind, j], ["from-json", other, j], ["from-json", "object", j]])
+        if mo[0] != m_dec or mo[2] != m_dec:
+            ctx.tie_failure("correspondence", "from_json_text (model, on the text of as_json) vs decode (enc_min t) (model)", {"model": mo[0][:1]}, case)
+        wrong = {"module": griffe.Module, "class": griffe.Class}[other]
+        try:
+            wrong.from_json(j)
+            impl_wrong = ["ok"]
+        except Exception as e:  # noqa: BLE001
+            impl_wrong = ["err", exc_tag(e)]
+        if mo[1][:2] != impl_wrong:
+            ctx.tie_failure("correspondence", "from_json_text of another class (model) vs Cls.from_json", {"model": mo[1][:2], "impl": impl_wrong}, case)
     if m_decoded is not None and tb is not None:
         got, want = norm_abs(tb), m_decoded[1]
         if obj.parent is not None:
@@ -812,6 +831,49 @@ def same_change(model_before, model_after, impl_before, impl_after) -> bool:
     """the model reproduces the failure: it changes the document at the same positions, from and to the same values."""
     d = term_diffs(impl_before, impl_after)
     return bool(d) and d == term_diffs(model_before, model_after)
+
+
+def all_canon(obj, out=None):
+    """the canonical path of every name occurrence of every expression of a tree, in traversal order."""
+    out = [] if out is None else out
+    if obj.is_alias:
+        return out
+    for slot, e, _ in walk_exprs(obj):
+        for n, _ in names_of(e, []):
+            out.append(canon(n))
+    for m in obj.members.values():
+        all_canon(m, out)
+    return out
+
+
+def check_entry_points(ctx, case, mode, j, obj2, tb, load_cls):
+    """json.loads(text, object_hook=json_decoder) -- the usage documented in json_decoder's docstring and the only way to
+    load the dictionary `griffe dump` writes -- must build the very tree Cls.from_json builds: same fields, same parent
+    link of every name, same canonical paths (C08_entry_points_on_dump)."""
+    import griffe
+    try:
+        obj3 = json.loads(j, object_hook=griffe.json_decoder)
+    except Exception as e:  # noqa: BLE001
+        ctx.property_failure(dict(case, mode=mode, step="json.loads(text, object_hook=json_decoder)"), {"exception": exc_tag(e), "message": str(e)[:200]})
+        return
+    ctx.count("entry_points_compared")
+    if type(obj3) is not type(obj2):
+        ctx.property_failure(dict(case, mode=mode, step="entry points: from_json vs json.loads(object_hook=json_decoder)"),
+                             {"from_json": type(obj2).__name__, "object_hook": type(obj3).__name__})
+        return
+    try:
+        t3 = norm_abs(abs_tree(obj3))
+    except Unabstractable:
+        t3 = None
+    if t3 is not None and tb is not None and t3 != norm_abs(tb):
+        ctx.property_failure(dict(case, mode=mode, step="entry points: from_json vs json.loads(object_hook=json_decoder)"),
+                             dict(_first_diff(norm_abs(tb), t3), note="model = from_json, impl = object_hook; trees incl. the parent link of every name"))
+        return
+    c2, c3 = all_canon(obj2), all_canon(obj3)
+    if c2 != c3:
+        i = next((k for k, (x, y) in enumerate(zip(c2, c3)) if x != y), min(len(c2), len(c3)))
+        ctx.property_failure(dict(case, mode=mode, step="entry points: names resolve differently in the tree built by json.loads(object_hook=json_decoder)"),
+                             {"from_json": c2[i:i + 3], "object_hook": c3[i:i + 3]})
 
 
 def _first_text_diff(a: str, b: str):
@@ -1933,6 +1995,21 @@ def _cli_expected(ctx, root, names, resolve, full, case, emitted, texts, raw_all
             pass
         except Exception:  # noqa: BLE001   (as_json failing is reported below)
             pass
+        # the dictionary of packages the command wrote, loaded the documented way: json.loads(object_hook=json_decoder)
+        if raw_all is not None:
+            try:
+                loaded = json.loads(raw_all, object_hook=griffe.json_decoder)
+                ctx.count("cli_dictionaries_loaded_through_the_hook")
+                if not isinstance(loaded, dict) or sorted(loaded) != sorted(emitted) or not all(isinstance(v, griffe.Module) for v in loaded.values()):
+                    ctx.property_failure(dict(case, step="json.loads(command output, object_hook=json_decoder)"), {"loaded": _short({k: type(v).__name__ for k, v in loaded.items()} if isinstance(loaded, dict) else type(loaded).__name__)})
+                else:
+                    for nm, mod in loaded.items():
+                        ref = griffe.Module.from_json(json.dumps(emitted[nm]))
+                        if outline(mod) != outline(ref) or all_canon(mod) != all_canon(ref):
+                            ctx.property_failure(dict(case, package=nm, step="entry points: the package loaded from the command's dictionary through json.loads(object_hook=json_decoder) differs from Module.from_json of its document"),
+                                                 {"names through object_hook": all_canon(mod)[:5], "names through from_json": all_canon(ref)[:5]})
+            except Exception as e:  # noqa: BLE001
+                ctx.property_failure(dict(case, step="json.loads(command output, object_hook=json_decoder)"), {"exception": exc_tag(e), "message": str(e)[:200]})
         for nm in names:
             pkg = loader.modules_collection.members[nm]
             alias_features(ctx, pkg)
